@@ -97,7 +97,12 @@ fn property_of(path: &str) -> String {
 
 fn main() {
     // no backtraces / messages from expected panics; shuttle chains its own hook after this one
-    std::panic::set_hook(Box::new(|_| {}));
+    if std::env::var("VERIF_PANIC_VERBOSE").is_ok() {
+        // development aid: show where a panic came from
+        std::panic::set_hook(Box::new(|info| eprintln!("PANIC: {info}")));
+    } else {
+        std::panic::set_hook(Box::new(|_| {}));
+    }
     std::env::remove_var("SHUTTLE_RANDOM_SEED");
     let args: Vec<String> = std::env::args().collect();
     let cmd = args.get(1).map(String::as_str).unwrap_or("");
